@@ -432,8 +432,10 @@ var c05Ops = []c05Op{
 		var err error
 		for i := 0; i+188 <= len(in); i += 188 {
 			_, err = acc.WritePacket(pk(in[i : i+188]))
-			_ = acc.Bytes()
-			_ = acc.Packets()
+			if len(in) <= 1<<16 || i+376 > len(in) { // Bytes() concatenates everything gathered so far: on long streams only at the end
+				_ = acc.Bytes()
+				_ = acc.Packets()
+			}
 		}
 		acc.Reset()
 		return res(err)
